@@ -986,7 +986,20 @@ func callBuiltin(caller *frame, fn *ssa.Builtin, args []value) value {
 		}
 		// append([]T, ...[]T) []T
 		caller.i.ex.noteAppend(len(args[0].([]value)), cap(args[0].([]value)), len(args[1].([]value)))
-		return append(args[0].([]value), args[1].([]value)...)
+		res := append(args[0].([]value), args[1].([]value)...)
+		if cap(res) > len(res) {
+			// Go zeroes the spare capacity of a grown slice; the host append leaves
+			// untyped nils there, which become visible through res[:cap(res)]
+			full := res[:cap(res)]
+			if full[len(res)] == nil {
+				if sl, ok := fn.Type().(*types.Signature).Params().At(0).Type().Underlying().(*types.Slice); ok {
+					for i := len(res); i < len(full) && full[i] == nil; i++ {
+						full[i] = zero(sl.Elem())
+					}
+				}
+			}
+		}
+		return res
 
 	case "copy": // copy([]T, []T) int or copy([]byte, string) int
 		src := args[1]
